@@ -296,6 +296,20 @@ func (sc SimpleColumn) WriteTo(store ReadOnlyFactStore, w io.Writer) error {
 		}
 		predFactCount[i] = numFacts
 	}
+	if sc.Deterministic {
+		// The output is determined by the set of facts: a predicate that is
+		// listed by the store but has no facts leaves no trace.
+		var nonEmpty []ast.PredicateSym
+		var nonEmptyCount []int
+		for i, p := range preds {
+			if predFactCount[i] == 0 {
+				continue
+			}
+			nonEmpty = append(nonEmpty, p)
+			nonEmptyCount = append(nonEmptyCount, predFactCount[i])
+		}
+		preds, predFactCount = nonEmpty, nonEmptyCount
+	}
 	if err := sc.writeHeader(preds, predFactCount, w); err != nil {
 		return err
 	}
